@@ -231,7 +231,7 @@ pub fn run(seed: u64, ntraces: usize) {
                     script.push(22);
                     let ow = g.owner.clone();
                     let (okp, _, _) = g.its_tx("pause", &ow, "pause", vec![], 0, &[], json!({"paused": true})); if okp { g.paused = true; }
-                    script.extend([1602u64, 1702, 1802, 1600, 10, 1602]);
+                    script.extend([1602u64, 1702, 1802, 1600, 3090, 3290, 3590, 3291, 10, 1602]);
                 }
                 else if d == 10 {   // inbound battery: every routing variant for a transfer without data, the main ones for transfers with data and deployments
                     for v in 0..18u64 { script.push(1600 + v); }
@@ -243,6 +243,7 @@ pub fn run(seed: u64, ntraces: usize) {
                 else if d == 12 {   // outbound battery: payment shapes x destination routing, with gas
                     for sh in [9u64, 8, 0, 1, 2] { for ch in 0..5u64 { script.push(3000 + sh * 10 + ch); } }
                     for sh in [9u64, 8, 1] { for ch in 0..2u64 { script.push(3500 + sh * 10 + ch); } }
+                    script.extend([3095u64, 3595, 3085, 3585, 3596, 3290, 3291]);   // empty destination address (transfer / call), call data in the metadata
                     script.extend([51u64, 3080, 3580, 52, 3081, 3581]);      // ethereum removed -> no transfer to it; then the hub removed -> none to a hub-routed chain
                 }
                 else if d == 14 {   // inbound deployment in two steps with the nominated minter calling the new manager directly in between
@@ -354,6 +355,9 @@ pub fn run(seed: u64, ntraces: usize) {
                 }
                 4 | 5 => { // outbound interchainTransfer / callContractWithInterchainToken
                     if g.toks.is_empty() { continue; }
+                    // forced shapes: chain index 5..9 = chain (index - 5) with an EMPTY destination address; shape 20.. = shape - 20 with call data in the metadata
+                    let (f_empty_dest, f_md_data) = if let Some((sh, ch)) = fshape { (ch >= 5, sh >= 20) } else { (false, false) };
+                    let fshape = fshape.map(|(sh, ch)| (sh % 20, ch % 5));
                     let ti = if fshape.is_some() { 0 } else { r.below(g.toks.len() as u64) as usize };
                     let (tid, ttok) = (g.toks[ti].id.clone(), g.toks[ti].token.clone().unwrap_or(tok.clone()));
                     let gasv = if fshape.is_some() { 3 + r.below(9) } else { match r.below(4) { 0 => 0, _ => 1 + r.below(20) } };
@@ -371,11 +375,11 @@ pub fn run(seed: u64, ntraces: usize) {
                     };
                     let dchain = if let Some((_, ch)) = fshape { [&b"ethereum"[..], b"avalanche", b"axelar", b"unknown", b"axelarnet"][ch as usize].to_vec() } else { r.pick(&[&b"ethereum"[..], b"avalanche", b"polygon", b"axelar", b"unknown", b"ethereum", b"axelarnet"]).to_vec() };
                     // destination addresses and data also longer than one ABI word and not word aligned (textual addresses of other chains)
-                    let daddr = if fshape.is_none() && r.chance(1, 10) { vec![] } else { match r.below(6) { 0 => r.bytes(40), 1 => r.bytes(33), 2 => r.bytes(64), _ => b"0xdestination".to_vec() } };
+                    let daddr = if f_empty_dest || (fshape.is_none() && r.chance(1, 10)) { vec![] } else { match r.below(6) { 0 => r.bytes(40), 1 => r.bytes(33), 2 => r.bytes(64), _ => b"0xdestination".to_vec() } };
                     let before_c = g.toks[ti].custody;
                     let _ = before_c;
                     if a == 4 {
-                        let md = match if fshape.is_some() { 0 } else { r.below(5) } { 0 => vec![], 1 => vec![0, 0, 0, 0], 2 => { let mut v = vec![0, 0, 0, 0]; v.extend(nested_buf(&if r.chance(1, 2) { r.bytes(45) } else { b"hello".to_vec() })); v }, 3 => vec![0, 0, 0, 1], _ => vec![1, 2] };
+                        let md = match if f_md_data { 2 } else if fshape.is_some() { 0 } else { r.below(5) } { 0 => vec![], 1 => vec![0, 0, 0, 0], 2 => { let mut v = vec![0, 0, 0, 0]; v.extend(nested_buf(&if r.chance(1, 2) { r.bytes(45) } else { b"hello".to_vec() })); v }, 3 => vec![0, 0, 0, 1], _ => vec![1, 2] };
                         let (ok, _, _) = g.its_tx("transfer", &anyone, "interchainTransfer", vec![tid.clone(), dchain.clone(), daddr.clone(), md.clone(), big(gasv)], egld, &esdt,
                             json!({"token_id": hx(&tid), "dchain": hx(&dchain), "daddr": hx(&daddr), "metadata": hx(&md), "gas": gasv.to_string()}));
                         if ok { g.toks[ti].custody += amt; }
